@@ -111,6 +111,26 @@ def snap_digest(snap):
 # ---------------------------------------------------------------------------------------------
 # probe sketches: which cell does a key own in each row?
 # ---------------------------------------------------------------------------------------------
+_WARMED = set()
+
+
+def warm_plain_bytes(sketch):
+    """Make sure this process has already called add() of the sketch's class with an ordinary bytes key (on a scratch sketch).
+
+    Observed on the unchanged tree: when the very first call of a process into a class's jitted add kernel passes an
+    `np.bytes_` key (what iterating a NumPy S-array yields), Numba's dispatcher refuses it with TypeError and from then on refuses
+    ordinary bytes keys too, for every sketch of that class, until the process ends; after one ordinary call the same `np.bytes_`
+    key is accepted.  NumPy-typed keys are outside the input domain of the properties, so the harness only offers them to a
+    class that has been used in the ordinary way before (DESIGN.md section 10)."""
+    s = sk()
+    for cls, args in ((s.CountMinLog8, (2, 1)), (s.CountMinLog16, (2, 1)), (s.CountMinLinear, (2, 1)), (s.HeavyHitters, (2, 1)), (s.HyperLogLog, (7,))):
+        if isinstance(sketch, cls):
+            if cls not in _WARMED:
+                cls(*args).add(b"warm-up")
+                _WARMED.add(cls)
+            return
+
+
 class Prober:
     """Reads a key's cell per row off an *empty* probe sketch after one add(key, 1).
 
@@ -146,6 +166,7 @@ class Prober:
         elif v == "ngram":
             self.sk.add_ngram(key, max(1, len(key)))
         elif v == "ndarray":
+            warm_plain_bytes(self.sk)
             self.sk.update(np.array([key], dtype="S8"))  # TypeError on a tree that does not accept arrays of keys
         else:
             raise ValueError(v)
